@@ -220,6 +220,11 @@ def run(ctx: Ctx):
         ctx.check(vd == "ok", "R19.d", e2.key("pi"), "constant iff the token equals 'pi'", f"build_expression builds {_av.show(cur_c.get('constant', cur_c[None]))[:100]} for a `constant` node: the constant is not recognised by `tree.children[0] == 'pi'` alone", e2.where())
     ctx.check(G.terms["VARIABLE"]["shape"] == '("a".."z" | "A".."Z" | "_") ((("a".."z" | "A".."Z" | "_") | "0".."9"))*', "R19.d", "src/gotranx/ode.lark::VARIABLE", "identifiers: letters, digits, underscore", f"terminal VARIABLE is {G.terms['VARIABLE']['shape']}", "src/gotranx/ode.lark")
 
+    ctx.rule("R19.f", "the generated functions' own time argument `t` is never re-bound from the model: `t` and `time` are the time symbol of every model and `t` is never reported as a missing variable", floor=3)
+    from .c01 import time_aliases
+
+    time_aliases(ctx, "R19.f")
+
     ctx.rule("R19.e", "print methods only interpolate text that went through the printer (so that sympy's reserved-word renaming applies to every symbol)", floor=8)
     for pr in ("numpy", "jax", "c", "ode"):
         for g in M.chains[pr]:
